@@ -515,7 +515,7 @@ def interpreter_modes(part, tier):
     for it in items:
         if isinstance(it[1], dict):
             it[1] = dict((k, x) for k, x in it[1].items() if not str(k).startswith("_"))
-    modes = [({"PYTHONOPTIMIZE": "1"}, "python -O"), ({"VERIF_RELOAD": "1"}, "modules reloaded")]
+    modes = [({"PYTHONOPTIMIZE": "1"}, "python -O"), ({"VERIF_RELOAD": "1"}, "modules reloaded"), ({"VERIF_PYFLAGS": "-bb"}, "python -bb")]
     if tier != "quick":
         modes.append(({"PYTHONOPTIMIZE": "2"}, "python -OO"))
     d = tempfile.mkdtemp(prefix="vfmodes")
@@ -531,7 +531,7 @@ def interpreter_modes(part, tier):
                     json.dump(chunk, f)
                 env = dict(os.environ, VERIF_REPO=REPO, VERIF_OUT=d, VERIF_INTERP=level, PYTHONDONTWRITEBYTECODE="1", VERIF_NPROC="1")
                 env.update(menv)
-                procs.append((subprocess.Popen([sys.executable, "-m", "vf", part.pid, "batch", fin, fout], cwd=HOME, env=env,
+                procs.append((subprocess.Popen([sys.executable] + menv.get("VERIF_PYFLAGS", "").split() + ["-m", "vf", part.pid, "batch", fin, fout], cwd=HOME, env=env,
                                                stdout=subprocess.PIPE, stderr=subprocess.STDOUT), fout, len(chunk)))
             for p, fout, k in procs:
                 try:
@@ -581,7 +581,8 @@ def replay_in_env(pid, path, env):
     import subprocess
     e = dict(os.environ, VERIF_REPO=REPO, VERIF_INTERP="replay", PYTHONDONTWRITEBYTECODE="1")
     e.update(env)
-    p = subprocess.run([sys.executable, "-m", "vf", pid, "replay", path], cwd=HOME, env=e, stdout=subprocess.PIPE, stderr=subprocess.STDOUT)
+    p = subprocess.run([sys.executable] + env.get("VERIF_PYFLAGS", "").split() + ["-m", "vf", pid, "replay", path], cwd=HOME, env=e,
+                       stdout=subprocess.PIPE, stderr=subprocess.STDOUT)
     return p.returncode, p.stdout.decode("utf-8", "replace")
 
 
